@@ -192,6 +192,11 @@ class World:
                 model[i['name']] = {'keys': ks,
                                     'default_key': next((k['name'] for k in keys.values() if k['iid'] == rid and k['default']), None)}
             dflt_id = next((i['name'] for i in ids.values() if i['default']), None)
+            # "deleting an identity or key removes everything beneath it": rows whose owner is gone are leftovers
+            self.orphans = ([f'certificate {bytes(n)[:40]!r} of missing key row {kid}' for _c, kid, n, _d, _f in
+                             c.execute('SELECT id, key_id, certificate_name, certificate_data, is_default FROM certificates')
+                             if kid not in keys]
+                            + [f'key {k["name"][:40]!r} of missing identity row {k["iid"]}' for k in keys.values() if k['iid'] not in ids])
             return model, dflt_id
         finally:
             pass
@@ -602,6 +607,11 @@ def _run(w, case, r):
         for kn in st_['deleted_keys']:
             if not any(kn in i['keys'] for i in model.values()) and w.kc.tpm.key_exist(Name.from_bytes(kn)):
                 r.bad('C15/tpm/private-key-of-deleted-key-left', where)
+                return
+        if not st_.get('dirty'):
+            w.raw()
+            if w.orphans:
+                r.bad('C15/store/rows-left-beneath-deleted-owner', f'{w.orphans[:2]} {where}')
                 return
     nontrivial = bool(flags)
     r.key = (''.join(trace)[:30], tuple(sorted(flags))) if nontrivial else None
